@@ -15,31 +15,31 @@ CLAIMED = {
         text="Seeded search over random bytes, byte-corrupted framed streams and conforming streams with 1-4 structure-aware corruption faults x all modes/options x file/pipe x schedules x read faults (short, EINTR, EIO); oracle: no panic in any managed thread, no deadlock, step budget, wall-clock limit, no fatal signal, exit status in {0,1,N}. Hangs are deterministic deadlock reports under the scheduler. The thorough tier runs the scenario twice: 150000 cases with simulator + code under test built with AddressSanitizer (memory errors abort the simulated process), then 600000 cases with the plain build. Workload additions: the repository's sample files with byte corruption, a no-command mode, many batches with a capped reader queue, an ignored -o, clock jumps.",
         note="panic=unwind build of the same sources stands in for the shipped panic=abort build; allocation failure is out of scope; std itself is not ASan-instrumented."),
     "C05": dict(level="exploration", ref="DESIGN.md §3 C05",
-        text="For each (input, command line): one canonical-schedule run, then 8 (quick) / 24 (thorough) runs under random, PCT and starvation policies with capped queues and benign I/O faults; all listed outputs must be byte-identical (WARN lines as a multiset). Distinct interleavings and collector arrival orders are measured. Workloads added after seeded-change rounds: an overlap (memory size > offset-to-next, or offset-to-next shrunk into the payload) that makes two validators report at ONE position - different kinds and same kind with different bytes; an ignored -o next to the check; the repository's sample files.",
+        text="For each (input, command line): one canonical-schedule run, then 8 (quick) / 24 (thorough) runs under random, PCT and starvation policies with capped queues and benign I/O faults; all listed outputs must be byte-identical (WARN lines as a multiset). Distinct interleavings and collector arrival orders are measured. Workloads added after seeded-change rounds: an overlap (memory size > offset-to-next, or offset-to-next shrunk into the payload) that makes two validators report at ONE position - different kinds and same kind with different bytes; an ignored -o next to the check; the repository's sample files; link / FEE / stave filters, half of them on a stream whose first packet belongs to another known system and is skipped (reader-side and analysis-side facts race to the collector).",
         note="Thread switches happen only at channel operations, spawn, join and thread exit; sound for this code base because all cross-thread effects are such operations plus two flags read at loop heads."),
     "C03": dict(level="exploration", ref="DESIGN.md §3 C03",
         text="Well-framed streams with arbitrary headers (0/1/batch multiples/2-260 packets, thorough to 20000; payloads 0-10000 bytes or word sequences) x filter x 3-4 payload-handling paths (view rdh from file=seek and pipe=read-discard, check sanity skipped/loaded, data view) under schedules, capped queues, short reads/EINTR; oracle = independent chain walker: rows, offsets, decoded fields, word bytes, rdhs_seen/rdhs_filtered/payload_size. Also: the repository's sample files; one stream beyond 4 GiB per quick run (rows of view rdh and the order of error positions on both sides of 2^32, delivered through a repeating pipe seam).",
         note="Walker and RDH decoder in itsgen are written from the framing rules, not from the tool's scanner; word offsets only judged when payload layout agrees with the header's data format."),
     "C08": dict(level="exploration", ref="DESIGN.md §3 C08",
-        text="Well-framed arbitrary streams x filter kind x EVERY distinct value present (+1 absent) x file/stdout destination x file/pipe source under schedules, capped reader->writer queue, short reads/writes, EINTR; oracle: byte-exact concatenation of the walker's matching packets, partition over all values, each output well framed, idempotence, Filter Stats count. Also: destination and statistics files left by an earlier run (stale content must be replaced), the repository's sample files, clock jumps, and one run with more selected packets than the writer buffers (1 Mi) through the repeating pipe seam.",
+        text="Well-framed arbitrary streams x filter kind x EVERY distinct value present (+1 absent) x file/stdout destination x file/pipe source under schedules, capped reader->writer queue, short reads/writes, EINTR; oracle: byte-exact concatenation of the walker's matching packets, partition over all values, each output well framed, idempotence, Filter Stats count. Also: destination and statistics files left by an earlier run (stale content must be replaced), the repository's sample files, clock jumps, and one run with more selected packets than the writer buffers (1 Mi) through the repeating pipe seam; a custom end-of-run expectation that fails (report and exit status change, the bytes do not); a destination FILE whose name is the word stdout.",
         note="Trusts the independent chain walker; an empty input is expected to exit non-zero."),
     "C14": dict(level="exploration", ref="DESIGN.md §3 C14",
-        text="Arbitrary / word-payload / conforming well-framed streams x checks, views, filtered writing x filters x JSON/TOML x file/pipe x schedules x benign I/O faults; every statistic the statement lists is recomputed by the independent chain walker (incl. all 20 trigger-bit counters, HBFs, layer/staves over analysed packets) and compared with the statistics file and the report rows. Also: stave-mode streams with ALPIDE frame errors (sub-codes on continuation lines), the repository's sample files, stale statistics files, and two streams beyond 4 GiB of payload per quick run (repeating pipe seam).",
+        text="Arbitrary / word-payload / conforming well-framed streams x checks, views, filtered writing x filters x JSON/TOML x file/pipe x schedules x benign I/O faults; every statistic the statement lists is recomputed by the independent chain walker (incl. all 20 trigger-bit counters, HBFs, layer/staves over analysed packets) and compared with the statistics file and the report rows. Also: stave-mode streams with ALPIDE frame errors (sub-codes on continuation lines), the repository's sample files, stale statistics files, and two streams beyond 4 GiB of payload per quick run (repeating pipe seam); check runs with end-of-run expectations from a custom checks file, whose [E9001]/[E9002] messages count in totals and codes.",
         note="Links are compared as a set (views do not sort the list); unique error codes only when the run finalises its statistics."),
     "C17": dict(level="exploration", ref="DESIGN.md §3 C17",
-        text="Stop conditions placed inside active work: stop event injected at step 1 / last / uniformly drawn decision steps; stdout failing (EPIPE/ENOSPC) after 0 / len-1 / uniform N bytes in views, filtered data, statistics and report; error cap; mid-stream fatal framing error; crossed with random/PCT/starvation schedules and queue capacities capped to 1..8 (full queues). Oracle: no panic, no deadlock, all managed threads finished within the step budget, exit status allowed, partial -o file = whole packets and a prefix of the expected data. Bounded reaction measured in the program's own actions: input bytes read after the stop flag was raised (by the injected event or by the program) <= one batch + read-ahead; a view's failed write must be noticed (fatal reported or stop flag raised). Workloads: many batches with the reader queue capped to 1..2, an ignored -o next to checks, an error storm below the cap, input ending inside a packet while filtered data is written.",
-        note="The ctrlc helper thread and real signal delivery are replaced by the store they perform; bounded liveness = 50 x reference steps + 5000."),
+        text="Stop conditions placed inside active work: stop event injected at step 1 / last / uniformly drawn decision steps; stdout failing (EPIPE/ENOSPC) after 0 / len-1 / uniform N bytes in views, filtered data, statistics and report; error cap; mid-stream fatal framing error; crossed with random/PCT/starvation schedules and queue capacities capped to 1..8 (full queues). Oracle: no panic, no deadlock, all managed threads finished within the step budget, exit status allowed, partial -o file = whole packets and a prefix of the expected data. Bounded reaction measured in the program's own actions: input bytes read after the stop flag was raised (by the injected event or by the program) <= one batch + read-ahead; a view's failed write must be noticed (fatal reported or stop flag raised). Workloads: many batches with the reader queue capped to 1..2, an ignored -o next to checks, an error storm below the cap, input ending inside a packet while filtered data is written. The work left at the stop event is bounded by configuration: no data queue holds more undelivered packets than the largest configured capacity. 1 case in 13 runs on an input that NEVER ends (the pipe seam delivers the stream over and over) where the stop condition - unknown system ID in the first packet, stop event at a drawn step or at a drawn input byte (reaches a reader skipping between two decision steps), error cap, stdout going away - is the only way out: under a fair seeded schedule with queues capped to 1..4 the run must end within 150000 decision steps.",
+        note="The ctrlc helper thread and real signal delivery are replaced by the store they perform; bounded liveness = 50 x reference steps + 5000 (finite inputs), 150000 steps from the stop condition (endless inputs, fair random schedules only: under PCT/starvation a starved collector legitimately never raises the flag)."),
     "C18": dict(level="fault_enumeration", ref="DESIGN.md §3 C18",
-        text="Crash-point enumeration: for small streams EVERY cut position 0..len, for larger ones every structural boundary (+-1) plus seeded positions; file (shorter file) and pipe (seam answers EOF at byte k); five check modes (findings compared) and views (rows compared); conforming and corrupted multi-link streams; under schedules. Oracle: normal end, findings below the incomplete packet identical to the untruncated run, view rows a prefix. Classes added: payloads above 8 KiB, an exact batch multiple of selected packets followed by skipped ones, small packets with header-only ones; a cut exactly between two packets leaves nothing incomplete (no message at or behind it); view rows of complete packets must not be missing; untruncated runs ending in a fatal are excluded.",
+        text="Crash-point enumeration: for small streams EVERY cut position 0..len, for larger ones every structural boundary (+-1) plus seeded positions; file (shorter file) and pipe (seam answers EOF at byte k); five check modes (findings compared) and views (rows compared); conforming and corrupted multi-link streams; under schedules. Oracle: normal end, findings below the incomplete packet identical to the untruncated run, view rows a prefix. Classes added: payloads above 8 KiB, an exact batch multiple of selected packets followed by skipped ones, small packets with header-only ones; a cut exactly between two packets leaves nothing incomplete (no message at or behind it); view rows of complete packets must not be missing; untruncated runs ending in a fatal are excluded; the boundary oracles apply where offset-to-next and memory size of the packets agree (otherwise the tool's reading position and the walker's boundaries differ by design).",
         note="Frame messages are compared only when the frame end they quote lies before the cut."),
     "C07": dict(level="exploration", ref="DESIGN.md §3 C07",
         text="Well-framed streams whose slot size matches the header's data format (random ITS words with arbitrary headers; conforming streams with layout-preserving corruption) x five check modes x filters x -m/statistics file x file/pipe x schedules; every message's leading offset, 10-byte dump, `current :` RDH row and quoted frame end is compared with the input through the independent walker/decoder. Also the repository's sample files with bits flipped inside payload words; 0xFF filler bytes in data format 0.",
         note="One known finding (layout recognised from payload bytes 10..15 instead of the RDH data format) is listed in known_findings.json by its own site; any other byte-dump/offset mismatch still fails the check."),
     "C12": dict(level="exploration", ref="DESIGN.md §3 C12",
-        text="(1) word table of the readout-frame views == independent word table for 0..700 words, both formats, padding 0..15, all size residues; (2) planted invalid-ID words in conforming streams reported exactly at their offsets; (3) excess-padding fault mid-continuation / before a stop page: one payload error at the RDH, nothing inside the payload, next packet judged from the initial state (no further error / DDW0 judged as IHW). Both data formats for the excess-padding fault, a second faulty payload on the same link, unknown ID 0xFF and 0xFF filler bytes in the word tables.",
+        text="(1) word table of the readout-frame views == independent word table for 0..700 words, both formats, padding 0..15, all size residues; (2) planted invalid-ID words in conforming streams reported exactly at their offsets; (3) excess-padding fault mid-continuation / before a stop page: one payload error at the RDH, nothing inside the payload, next packet judged from the initial state (no further error / DDW0 judged as IHW). Both data formats for the excess-padding fault, a second faulty payload on the same link, unknown ID 0xFF and 0xFF filler bytes in the word tables; planted words behind an RDH that is itself faulty in a field that changes nothing about the packet (header size, priority bit, reserved bits).",
         note="The chunking itself is a pure function: its sweep is workload randomisation inside the simulator; the fault-and-recovery half is the simulation-specific part."),
     "C16": dict(level="exploration", ref="DESIGN.md §3 C16",
-        text="Input classes (clean, k errors, mid-stream fatal framing error, non-ALICE, missing file, empty) x check modes x -E n x display options (-m, -w code lists incl. prefixes of other codes, -e N), each run under its own schedule; invalid option combinations through the real clap parser + validate_args. Oracle: exit-status table; Total Errors (report) == total_errors (file) == messages shown; -m/-w change only the display; -e N shows at most N; rejected command lines write nothing. Also: the fatal and the failed-custom-check classes through views and filtered writing, -w together with -e, custom-check-only failures under -w 9001/9002, the whole statistics file compared between plain and -m runs, -g and odd-case stats-file extensions among the rejected command lines; the simulator runs the real init_config() (guarded process-arguments hook) in its own observed current directory.",
+        text="Input classes (clean, k errors, mid-stream fatal framing error, non-ALICE, missing file, empty) x check modes x -E n x display options (-m, -w code lists incl. prefixes of other codes, -e N), each run under its own schedule; invalid option combinations through the real clap parser + validate_args. Oracle: exit-status table; Total Errors (report) == total_errors (file) == messages shown; -m/-w change only the display; -e N shows at most N; rejected command lines write nothing. Also: the fatal and the failed-custom-check classes through views and filtered writing, -w together with -e, custom-check-only failures under -w 9001/9002, the whole statistics file compared between plain and -m runs, -g and odd-case stats-file extensions among the rejected command lines; where the independent chain walk arrives at an out-of-range offset-to-next the fatal must be reported in every mode, also when the reader meets that RDH while skipping for a filter; the simulator runs the real init_config() (guarded process-arguments hook) in its own observed current directory.",
         note="The exit status is produced by the real util::lib::exit; the driver sim_main is a transcription of init::run."),
     "C19": dict(level="exploration", ref="DESIGN.md §3 C19",
         text="Arbitrary-header streams with random ITS words (all flag combinations) and conforming streams x three views x filters x file/pipe x schedules x short writes; rows parsed back: offsets, raw bytes, decoded attributes against a reference decoding from the documented bit layouts; styled == unstyled content; conforming data shows no error. Also: payloads up to 9900 bytes, unknown ID 0xFF, the repository's sample files with flipped word bits.",
